@@ -111,6 +111,81 @@ def registration_semantics():
     return out
 
 
+def late_and_mixed_registrations():
+    """registration takes effect whenever it happens and whatever else the session (or another one) registered: a session that has
+    already decoded built-in controls / filters / credentials registers afterwards; a session registers several kinds, in every order,
+    while a second session registers nothing — and must keep treating all three custom types as unknown"""
+    import itertools
+
+    out = []
+    data = custom_bytes()
+    o = M.PackingOptions()
+    warm = [
+        M.ExtendedRequest(message_id=1, controls=[sansldap.PagedResultControl(critical=False, size=1, cookie=b""),
+                                                  sansldap.LDAPControl(control_type="1.2.9", critical=True, value=b"v")], name="1.2", value=None).pack(o),
+        M.SearchRequest(message_id=2, controls=[sansldap.ShowDeletedControl(critical=True)], base_object="", scope=M.SearchScope.BASE,
+                        deref_aliases=M.DereferencingPolicy.NEVER, size_limit=0, time_limit=0, types_only=False,
+                        filter=sansldap.FilterAnd([sansldap.FilterEquality("a", b"b"), sansldap.FilterPresent("c")]), attributes=[]).pack(o),
+    ]
+    reg = {"control": lambda s: s.register_control(CT.CustomControl), "filter": lambda s: s.register_filter(CT.CustomFilter),
+           "auth": lambda s: s.register_auth_credential(CT.CustomAuth)}
+
+    def typed(what, ms):
+        if what == "control":
+            return isinstance(ms[0].controls[0], CT.CustomControl)
+        if what == "filter":
+            return isinstance(ms[0].filter.filter, CT.CustomFilter)
+        return isinstance(ms[0].authentication, CT.CustomAuth)
+
+    def outcome(s, what):
+        try:
+            ms = s.receive(data[what])
+            return "typed" if typed(what, ms) else "generic"
+        except sansldap.ProtocolError:
+            return "ProtocolError"
+        except BaseException as e:  # noqa: BLE001
+            return "Other:" + type(e).__name__
+
+    for kinds in [p for n in (1, 2, 3) for p in itertools.permutations(("control", "filter", "auth"), n)]:
+        for warmed in (False, True):
+            a, b = sansldap.LDAPServer(), sansldap.LDAPServer()
+            if warmed:
+                for w in warm:
+                    a.receive(w)
+                    b.receive(w)
+            try:
+                for k in kinds:
+                    reg[k](a)
+            except BaseException as e:  # noqa: BLE001
+                out.append({"key": None, "what": f"the first registration of a custom {k} type on a fresh session raised {type(e).__name__} "
+                            f"(registrations made on other sessions are visible to it); order {list(kinds)}"})
+                continue
+            # ids 3, 4, 5 are used by the custom messages; "auth" is a BindRequest and must come last (it needs no outstanding operations)
+            for s, registered in ((b, ()), (a, kinds)):
+                fresh_copy = sansldap.LDAPServer()
+                for what in ("control", "filter", "auth"):
+                    t = sansldap.LDAPServer() if what == "auth" or s.state.name == "CLOSED" else s
+                    if t is not s:
+                        # auth needs an idle session, and a ProtocolError closes one: use a session with the same registrations and history
+                        t = sansldap.LDAPServer()
+                        try:
+                            for k in registered:
+                                reg[k](t)
+                        except BaseException as e:  # noqa: BLE001
+                            out.append({"key": None, "what": f"the first registration of a custom {k} type on a fresh session raised {type(e).__name__} "
+                                        f"(registrations made on other sessions are visible to it); order {list(registered)}"})
+                            continue
+                    got = outcome(t, what)
+                    want = "typed" if what in registered else ("generic" if what == "control" else "ProtocolError")
+                    if got != want:
+                        out.append({"key": None, "what": f"with custom types {list(kinds)} registered on one session ({'after' if warmed else 'before'} it decoded "
+                                    f"built-in types), a session that registered {list(registered)} handles the custom {what} bytes as {got}, expected {want}"})
+                del fresh_copy
+            if len(out) >= 5:
+                return out
+    return out
+
+
 def different_registrations():
     """two live sessions holding DIFFERENT custom types of the same kind, traffic interleaved in every order"""
     out = []
@@ -282,7 +357,7 @@ def shared_inputs(ctx, hist):
 
 def run(ctx):
     rng = ctx.rng
-    violations = registration_semantics() + different_registrations()
+    violations = registration_semantics() + different_registrations() + late_and_mixed_registrations()
     hist = collections.Counter()
     violations += shared_results(ctx, hist)
     violations += shared_inputs(ctx, hist)
@@ -365,7 +440,8 @@ def run(ctx):
                 "variant of it (other control values) and the first result must not change; two sessions are handed the same bytearray (the common "
                 "first bytes of their next messages) and each must still receive its own message; sends whose packing fails on one session must "
                 "leave no bytes in the other session's stream; plus a direct test of the registration "
-                "clause (registered session decodes the type, duplicate registration raises ValueError, unregistered and later-created sessions treat "
+                "clause (registered session decodes the type — also when it registers after having decoded built-in types, and for every ordered subset of "
+                "the three kinds while another session registers nothing —, duplicate registration raises ValueError, unregistered and later-created sessions treat "
                 "the same bytes as an unknown type), in both orders; distinct = distinct interleavings",
         "samples": samples,
         "histogram": dict(sorted(hist.items())),
